@@ -376,9 +376,9 @@ def _run_ap(case):
 # computed from the defining inputs, compared with what the object EVALUATES to at points within a few standard deviations
 # of its mean, and with the reported log-integral.
 def _pool_hd(tier):
-    base = [(20, 1), (32, 2), (48, 1), (160, 1)]
+    base = [(20, 1), (32, 2), (48, 1), (160, 1), (2, 1100), (1, 1025)]  # the last two: batches beyond 1024
     if tier == "thorough":
-        base += [(24, 2), (64, 1), (40, 3), (96, 1)]
+        base += [(24, 2), (64, 1), (40, 3), (96, 1), (3, 1500), (2, 2100)]
     return base
 
 
@@ -399,7 +399,7 @@ def _strategy_hd(shapes):
         if base == "measure":
             case["m"]["ln_beta"] = np.asarray(case["m"]["ln_beta"], float)
         if route == "slice":
-            case["idx"] = draw(gen.index_array(R, 1, 3))
+            case["idx"] = draw(gen.index_array(R, 1, 3)) + ([R - 1, R // 2] if R > 16 else [])
         if route == "marginal":
             k = draw(st.integers(max(1, D - 6), D))
             case["dims"] = list(draw(st.permutations(list(range(D))))[:k])
@@ -495,5 +495,5 @@ SUBS = [
         examples={"quick": 50, "thorough": 300}, shards={"quick": 6, "thorough": 10}, rule="Dx+Dy>=3"),
     Sub("high_dim", _pool_hd, _strategy_hd, _run_hd, lambda c: True,
         lambda c: [f"route={c['route']}", f"diag={c['diag']}", f"D={c['D']}"],
-        examples={"quick": 40, "thorough": 200}, shards={"quick": 4, "thorough": 8}, rule="all (D >= 20)"),
+        examples={"quick": 40, "thorough": 200}, shards={"quick": 4, "thorough": 8}, rule="all (D >= 20 or R > 1024)"),
 ]
